@@ -59,8 +59,11 @@ def classify(ctx, w: World, threads: bool = True):
             sw.kinds = {f"{kind} after the entry was published at line {pub}", "del"}
             bad.append(sw)
             continue
-        if sw.field and kinds <= CACHE_KINDS and sw.origin_func in w.model.funcs and not w.model.funcs[sw.origin_func].cls and sw.chain \
+        if sw.field and kinds <= CACHE_KINDS and "subscript-store:key" in kinds and "subscript-store:const" not in kinds \
+                and sw.origin_func in w.model.funcs and not w.model.funcs[sw.origin_func].cls and sw.chain \
                 and _fills_a_parameter(w.model, sw):
+            # (a helper that writes fixed slots of its parameter -- out[0] = .., out[1] = .. -- is an in-place vector operation,
+            # not a cache fill: it is judged like any other write into the shared object)
             # the pad / look / compute / store sequence lives in a helper that receives the container as an argument: the idiom is
             # the verified one only if key and value are right at every call site, which is not established here
             helper_fills.append(sw)
